@@ -7,7 +7,7 @@ import json
 import os
 import random
 
-from . import core
+from . import core, suite
 from . import formula as F
 from .values import enc
 
@@ -111,6 +111,9 @@ def main(tier, replay=None):
         run.exhaustive = True
     asts += [rand_tree(rng, rng.randint(2, 5)) for _ in range(4000 if quick else 100000)]
     obs = observe(lib, asts, env)
+    so = suite.observations({'IFERROR','IFNA','ISERROR','ISERR','ISNA','ERROR.TYPE','NA'}, len(obs) + 1)   # the same functions as the repository's own tests call them
+    run.extra['calls_from_repository_tests'] = len(so)
+    obs += so
     CH = 20000
     for k in range(0, len(obs), CH):
         part = obs[k:k + CH]
